@@ -21,7 +21,7 @@ CORPUS = {
                           "x = 1\n"),
     'override_base_and_sub': ("from pedal import *\nfrom pedal.core.feedback import FeedbackResponse\nFeedbackResponse.override(priority='low')\nexplain.override(priority='high')\nverify()\nexplain('why', label='e')\n",
                               "x = 2\n"),
-    'formatter': ("from pedal import *\nfrom pedal.core.formatting import Formatter\nclass F(Formatter):\n    def name(self, x):\n        return '<<' + str(x) + '>>'\nset_formatter(F())\nverify()\ntifa_analysis()\nrun()\nprevent_function_call('print')\n",
+    'formatter': ("from pedal import *\nfrom pedal.core.formatting import Formatter\nclass F(Formatter):\n    def name(self, x):\n        return '<<' + str(x) + '>>'\nset_formatter(F)\nfrom pedal.tifa import tifa_analysis\nverify()\ntifa_analysis()\nrun()\nprevent_function_call('print')\n",
                   "print(y)\n"),
     'sections': ("from pedal import *\nfrom pedal.source.sections import *\nseparate_into_sections(independent=True)\nnext_section()\nverify()\nrun()\nnext_section()\nverify()\nexplain('sec', label='s')\n",
                  "a = 0\n##### Part 1\nprint(a)\n##### Part 2\nprint('two')\n"),
@@ -33,14 +33,36 @@ CORPUS = {
               "x = 3\n"),
     'assertions': ("from pedal import *\nverify()\nrun()\nassert_equal(call('f', 2), 4)\nassert_less(call('f', 1), 1)\nset_success()\n",
                    "def f(x):\n    return x * 2\n"),
-    'tifa_issue': ("from pedal import *\nverify()\ntifa_analysis()\nrun()\nset_success()\n", "print(undefined_variable)\nunused = 1\n"),
+    'tifa_issue': ("from pedal import *\nfrom pedal.tifa import tifa_analysis\nverify()\ntifa_analysis()\nrun()\nset_success()\n", "print(undefined_variable)\nunused = 1\n"),
+    'module_attr_static': ("from pedal import *\nfrom pedal.tifa import tifa_analysis\nverify()\ntifa_analysis()\nrun()\nset_success()\n",
+                           "import math\nif input('short pi?') == 'yes':\n    math.pi = '3.14'\nprint('pi is', math.pi)\n"),
+    'module_attr_use': ("from pedal import *\nfrom pedal.tifa import tifa_analysis\nverify()\ntifa_analysis()\nrun()\nset_success()\n",
+                        "import math\narea = math.pi * 2 + 1\nprint(area)\n"),
+    'override_twice': ("from pedal import *\nfrom pedal.tifa.feedbacks import initialization_problem\n"
+                       "initialization_problem.override(title='Variable Problem')\n"
+                       "initialization_problem.override(title='Use Before Assignment')\nfrom pedal.tifa import tifa_analysis\nverify()\ntifa_analysis()\nrun()\n",
+                       "print(never_assigned)\n"),
+    'tifa_default_title': ("from pedal import *\nfrom pedal.tifa import tifa_analysis\nverify()\ntifa_analysis()\nrun()\n", "print(never_assigned)\n"),
     'compliment_partial': ("from pedal import *\nverify()\nrun()\ncompliment('nice', score='+25%')\ngive_partial('10%')\n", "x = 4\n"),
 }
 
 
+# entries whose student code really rebinds an attribute of a library module of the grading process: they are run only
+# against their observer, and the harness restores the module afterwards so that no other pair is affected
+POLLUTERS = {
+    'module_attr_runtime': ("from pedal import *\nverify()\nrun()\nset_success()\n", "import math\nmath.pi = '3.14'\nprint(math.pi)\n"),
+}
+OBSERVERS = {'module_attr_runtime': 'module_attr_use'}
+
+
+def _restore_interpreter():
+    import math
+    math.pi = 3.141592653589793
+
+
 def grade(name):
     """grade one corpus entry in THIS process; returns the observable result"""
-    script, code = CORPUS[name]
+    script, code = CORPUS[name] if name in CORPUS else POLLUTERS[name]
     from pedal.core.environment import Environment
     from pedal.core.report import MAIN_REPORT
     from pedal.resolvers.simple import resolve
@@ -112,12 +134,64 @@ def bounded(arg):
                 diff = {k: (got.get(k), baseline[b].get(k)) for k in set(got) | set(baseline[b]) if got.get(k) != baseline[b].get(k)}
                 failures.append({'id': 'history', 'canon': 'result depends on the earlier grading (%s)' % a,
                                  'detail': 'grading %s after %s differs from a fresh interpreter: %r' % (b, a, diff)})
+    for a, b in OBSERVERS.items():
+        evaluations += 1
+        distinct.add((a, b))
+        try:
+            grade(a)
+            got = norm(grade(b))
+        except BaseException as e:
+            failures.append({'id': 'history', 'canon': 'grading raised', 'detail': '%s after %s raised %r' % (b, a, e)})
+            got = None
+        finally:
+            _restore_interpreter()
+        if got is not None and got != baseline[b]:
+            diff = {k: (got.get(k), baseline[b].get(k)) for k in set(got) | set(baseline[b]) if got.get(k) != baseline[b].get(k)}
+            failures.append({'id': 'history', 'canon': 'result depends on the earlier grading (%s)' % a,
+                             'detail': 'grading %s after %s differs from a fresh interpreter: %r' % (b, a, diff)})
+    seq_failures, seq_n = override_sequences()
+    failures += seq_failures
+    evaluations += seq_n
+    distinct |= set(('override_sequence', i) for i in range(seq_n))
     samples = [{'first': names[0], 'second': names[1], 'expected_second': baseline[names[1]]}]
-    return {'name': 'B-history', 'bound': 'all %d ordered pairs of a corpus of %d (script, submission) gradings exercising each leak '
+    return {'name': 'B-history', 'bound': 'every sequence of <= 3 override() calls on a base and a derived feedback class (2 fields, 2 values) followed by clear(); all %d ordered pairs of a corpus of %d (script, submission) gradings exercising each leak '
             'channel (override of a class and a subclass, suppress, formatter, mocked input, sections, crash, pools, syntax and '
             'runtime errors); baseline = each entry graded first in a fresh interpreter' % (len(names) ** 2, len(names)),
             'evaluations': evaluations, 'distinct_nontrivial': len(distinct), 'exhaustive': True,
             'rule': 'distinct = (earlier entry, later entry)', 'samples': samples, 'failures': failures}
+
+
+def override_sequences():
+    """every sequence of up to three override() calls over {Base, Sub} x {title, message_template} x {two values},
+    then clear(): every class attribute is what it was (own value or inherited)"""
+    import itertools
+    from pedal.core.report import Report
+    from pedal.core.feedback import Feedback
+    failures = []
+    ops = list(itertools.product(['Base', 'Sub'], ['title', 'message_template'], ['v1', 'v2']))
+    n = 0
+    for length in (1, 2, 3):
+        for seq in itertools.product(ops, repeat=length):
+            n += 1
+
+            class Base(Feedback):
+                title = 'base title'
+                message_template = 'base message'
+
+            class Sub(Base):
+                title = 'sub title'
+            classes = {'Base': Base, 'Sub': Sub}
+            before = {(c, f): (f in classes[c].__dict__, getattr(classes[c], f)) for c in classes for f in ('title', 'message_template')}
+            r = Report()
+            for c, f, v in seq:
+                classes[c].override(report=r, **{f: v})
+            r.clear()
+            after = {(c, f): (f in classes[c].__dict__, getattr(classes[c], f)) for c in classes for f in ('title', 'message_template')}
+            if after != before and len(failures) < 10:
+                diff = {k: (before[k], after[k]) for k in before if before[k] != after[k]}
+                failures.append({'id': 'history', 'canon': 'override() sequence not undone by clear()',
+                                 'detail': 'after %r and clear(): (own attribute?, value) was/is %r' % (seq, diff)})
+    return failures, n
 
 
 def _dirty(value):
